@@ -88,6 +88,12 @@ DECLS1 = [
     "_T{n} = TypeVar('_T{n}')\nclass K{n}(Generic[_T{n}]):\n    def m(self, a: {T}) -> _T{n}: ...\n",
     "X{n} = {T}\n",
     "def f{n}(*, a: {T} = ..., b: {T}) -> None: ...\n",
+    # every split of the defaults between positional-only and regular parameters, with and without regular ones
+    "def f{n}(a, b: {T} = ..., /) -> None: ...\n",
+    "def f{n}(a: {T} = ..., /, *, k: {T}) -> None: ...\n",
+    "def f{n}(a: {T} = ..., /, b: {T} = ...) -> None: ...\n",
+    "def f{n}(a, /, b: {T} = ...) -> None: ...\n",
+    "class K{n}:\n    def m(self, a: {T} = ..., /) -> {T}: ...\n",
     "def f{n}(a: {T} = ..., *args: {T}, b: {T} = ..., c: {T}, **kw: {T}) -> None: ...\n",
     "class K{n}:\n    @classmethod\n    def __class_getitem__(cls, item: {T}) -> {T}: ...\n    def __init_subclass__(cls, a: {T}) -> None: ...\n    def __new__(cls, a: {T}) -> K{n}: ...\n",
     "class K{n}:\n    class N:\n        class M:\n            y: {T}\n",
